@@ -899,6 +899,13 @@ Theorem C17_abort_view_old_or_new : forall (R : rules) (c : cfg) (b : bst) (o : 
 Proof. exact abort_view_old_or_new. Qed.
 Print Assumptions C17_abort_view_old_or_new.
 
+(* `abort` is not an ad-hoc notion: in the micro-step machine of P5 (mrun), a thread that begins operation o, executes k of
+   its acts and then never runs again leaves the machine in exactly the state abort R c b o k *)
+Theorem C17_abort_is_stalled_program : forall (R : rules) (c : cfg) (b : bst) (o : op) (k : nat),
+  m_b (fst (mrun c (mquiet b) (Begin (thr o) (compile R c (b_priv b (thr o)) o) :: ticks_of (thr o) k))) = abort R c b o k.
+Proof. exact abort_is_stalled_program. Qed.
+Print Assumptions C17_abort_is_stalled_program.
+
 (* set_backend interrupted anywhere: nothing happened, or the THREAD-LOCAL flavour of the same selection, or the whole *)
 Theorem C17_abort_set_characterised : forall (R : rules) (c : cfg) (b : bst) (t : tid) (x : sel) (l : bool) (k : nat),
   seqv (to_st (abort R c b (Set_ t x l) k)) (to_st b) \/
